@@ -332,6 +332,10 @@ func cmdCheck(args []string) {
 		}
 		if ledgerHasFunc(lp, key) {
 			undecided = append(undecided, "function can no longer be encoded: "+u)
+		} else {
+			// never silent: a function in scope that is neither encoded nor
+			// explicitly skipped in its contract file
+			undecided = append(undecided, "function in scope is not encodable (add a skip with the reason, or extend the engine): "+u)
 		}
 	}
 	sort.Strings(undecided)
